@@ -21,6 +21,10 @@ func restoreIndex(rootGoitPath, path string, index *store.Index, tree *object.Tr
 
 	// get node
 	node, isNodeFound := object.GetNode(tree.Children, path)
+	if isNodeFound && len(node.Children) > 0 {
+		// HEAD has a directory at this path: it is not the entry of a file, and a tree id must never be staged
+		isNodeFound = false
+	}
 
 	// if the path is registered in the Index
 	if isEntryFound {
